@@ -1,4 +1,4 @@
-import LeptosModel.Proofs.ReactiveConv
+import LeptosModel.Proofs.ReactiveJust
 /-!
 # Proofs/ReactiveReach — marking only touches the subscribers-descendants of the marked node;
 a write to a signal that a memo does not (transitively, tracked) depend on leaves the memo alone
@@ -191,5 +191,61 @@ theorem set_inert {p : Prog} (hwf : WF p = true) (ops : List Op) (m sg : Nat) (b
       rw [this] at hdep; cases hdep
   have hval' : ((setSignal (fuelFor p) s sg v).get m).val = some val := by rw [sp.val m hmsg]; exact hval
   rw [read_clean_val hq' (by rw [sp.kind, hk']; simp) hst' hval', hval]; rfl
+
+/-! ## dynamic reachability implies static dependency -/
+
+theorem dependsOn_self (p : Prog) (f x : Nat) : dependsOn p (f + 1) x x = true := by
+  simp [dependsOn]
+
+theorem dependsOn_of_reach {p : Prog} {s : State} (h : InvR p s) (hs : SrcStatic p s) {x w y : Nat}
+    (hw : w ∈ (s.get x).subs) (hr : Reach s w y) :
+    ∀ f, y < f → (s.get y).kind ≠ .eff → dependsOn p f y x = true := by
+  -- a node with a recorded source is a memo or an effect
+  have memo_of_src : ∀ a b, b ∈ (s.get a).sources → (s.get a).kind ≠ .eff →
+      ∃ body, p[a]? = some (.memo body) ∧ body.readsNode b = true := by
+    intro a b hb hk
+    have hrd := hs a b hb
+    cases hka : (s.get a).kind with
+    | eff => exact absurd hka hk
+    | memo =>
+      obtain ⟨body, hbody⟩ := h.memo_def hka
+      refine ⟨body, hbody, ?_⟩
+      simpa [bodyOf, hbody] using hrd
+    | sig =>
+      exfalso
+      have ha : a < s.nodes.length := by
+        rcases Nat.lt_or_ge a s.nodes.length with h' | h'
+        · exact h'
+        · rw [State.get_default s h'] at hb; cases hb
+      obtain ⟨v, hv⟩ := h.sig_def (by rw [← h.len]; exact ha) hka
+      simp [bodyOf, hv, Expr.readsNode] at hrd
+  induction hr with
+  | refl =>
+    intro f hf hk
+    have hsrc : x ∈ (s.get w).sources := (h.edge x w).1 hw
+    have hlt := h.srcLt w x hsrc
+    obtain ⟨body, hbody, hrd⟩ := memo_of_src w x hsrc hk
+    cases f with
+    | zero => omega
+    | succ f =>
+      cases f with
+      | zero => omega
+      | succ f =>
+        simp only [dependsOn, hbody, Bool.or_eq_true, beq_iff_eq, List.any_eq_true, List.mem_range,
+          Bool.and_eq_true]
+        exact .inr ⟨x, hlt, hrd, .inl rfl⟩
+  | step hr' hm ih =>
+    rename_i y w'
+    intro f hf hk
+    have hsrc : y ∈ (s.get w').sources := (h.edge y w').1 hm
+    have hlt := h.srcLt w' y hsrc
+    have hky := h.srcData w' y hsrc
+    obtain ⟨body, hbody, hrd⟩ := memo_of_src w' y hsrc hk
+    cases f with
+    | zero => omega
+    | succ f =>
+      simp only [dependsOn, hbody, Bool.or_eq_true, beq_iff_eq, List.any_eq_true, List.mem_range,
+        Bool.and_eq_true]
+      exact .inr ⟨y, hlt, hrd, ih f (by omega) hky⟩
 
 end Leptos.Reactive
